@@ -27,9 +27,9 @@ var hostileRunes = []rune{'%', '%', 's', 'd', 'v', '!', '$', '{', '}', '*', '+',
 
 // multi-character sequences that text-level passes (line-ending normalisation, space
 // collapsing, escaping, trimming) treat specially
-var hostileFragments = []string{"\r\n", "\r\n", "\n\n", "\n\r", "\r", "  ", "\t\t", " \n ", "\n  ", ") (", "((", "))", ";;", ";;;;", ", ", "\\n", "%%", "\u00a0\u00a0", " \t ", "\r\n\r\n"}
+var hostileFragments = []string{"\r\r\n", "\r\r\n\n", "\r\n", "\r\n", "\n\n", "\n\r", "\r", "  ", "\t\t", " \n ", "\n  ", ") (", "((", "))", ";;", ";;;;", ", ", "\\n", "%%", "\u00a0\u00a0", " \t ", "\r\n\r\n"}
 
-var hostileStringPool = []string{"line one\r\nline two", "\r\n", "x\r\n", "\r\ny", "a\rb", "50%% off", "100%", "a%sb", "%d", "%v%v", "%!s(MISSING)", "${x}", "$1", "{{.}}", "a*b?", "<tag>", "x=y&z", `a\b`, "a\nb", "é z", "a  b", "a(b", "a;b", ")", "(", ";", ";;;; optimize:false", `\`, `\\`, `\n`, " lead", "trail ", "\n", "a\r\nb", "tab\there", "[x]", "a,b", "'q'", "😀", "�", " ", "", "(and a b)", "1", "true", "x y z"}
+var hostileStringPool = []string{"a\r\r\nb", "\r\r\n", "line one\r\nline two", "\r\n", "x\r\n", "\r\ny", "a\rb", "50%% off", "100%", "a%sb", "%d", "%v%v", "%!s(MISSING)", "${x}", "$1", "{{.}}", "a*b?", "<tag>", "x=y&z", `a\b`, "a\nb", "é z", "a  b", "a(b", "a;b", ")", "(", ";", ";;;; optimize:false", `\`, `\\`, `\n`, " lead", "trail ", "\n", "a\r\nb", "tab\there", "[x]", "a,b", "'q'", "😀", "�", " ", "", "(and a b)", "1", "true", "x y z"}
 
 func genHostileString(t *rapid.T) string {
 	if rapid.Bool().Draw(t, "hpool") {
@@ -288,11 +288,55 @@ func checkC13(c C13Case, r *Rec) *Violation {
 	return nil
 }
 
+// sweepC13: operand counts at the engine's maximum, written directly and reached only through
+// ReduceNesting, and long lists - every one must decompile and round-trip like any other program.
+func sweepC13(tier string, shard, shards int, emit func(C13Case)) {
+	if shard != 0 {
+		return
+	}
+	u := Universe{RegMode: RegGetOrReg}
+	for i := 0; i < 4; i++ {
+		u.Vars = append(u.Vars, VarDecl{Name: fmt.Sprintf("b%d", i), Ty: m.TBool, Val: m.V{X: i%2 == 0}})
+		u.Vars = append(u.Vars, VarDecl{Name: fmt.Sprintf("i%d", i), Ty: m.TInt, Val: m.V{X: int64(i)}})
+	}
+	wideOf := func(op string, n int, bools bool) *m.Node {
+		nd := m.Op(op)
+		for i := 0; i < n; i++ {
+			if bools {
+				nd.Kids = append(nd.Kids, m.Var(fmt.Sprintf("b%d", i%4)))
+			} else {
+				nd.Kids = append(nd.Kids, m.Var(fmt.Sprintf("i%d", i%4)))
+			}
+		}
+		return nd
+	}
+	for _, n := range []int{2, 63, 64, 65, 125, 126, 127} {
+		for _, ev := range []int{0, 1} {
+			emit(C13Case{U: u, Tree: wideOf("and", n, true), Masks: []int{0, 15, 2}, Events: ev, Origin: "sweep-wide"})
+			emit(C13Case{U: u, Tree: wideOf("+", n, false), Masks: []int{0, 15}, Events: ev, Origin: "sweep-wide"})
+			emit(C13Case{U: u, Tree: m.Op("=", wideOf("c_sum", n, false), m.Const(int64(1))), Masks: []int{0, 4}, Events: ev, Origin: "sweep-wide"})
+			if n > 30 { // the count is reached only after ReduceNesting merged the inner operator
+				outer := wideOf("or", n-27, true)
+				outer.Kids = append(outer.Kids, wideOf("or", 27, true))
+				emit(C13Case{U: u, Tree: outer, Masks: []int{0, 2, 15}, Events: ev, Origin: "sweep-wide-after-flattening"})
+			}
+		}
+	}
+	for _, n := range []int{15, 16, 17, 31, 32, 33, 100, 255, 256, 257} {
+		li, ls := make([]int64, n), make([]string, n)
+		for i := range li {
+			li[i], ls[i] = int64(i*7%13-3), fmt.Sprintf("s %d", i%9)
+		}
+		emit(C13Case{U: u, Tree: m.Op("or", m.Op("in", m.Var("i1"), m.Const(li)), m.Op("overlap", m.Const(ls), m.Const([]string{"s 1", "zz"}))), Masks: []int{0, 1, 15}, Origin: "sweep-long-lists"})
+	}
+}
+
 var propC13 = Prop[C13Case]{
 	ID:    "C13",
 	Rule:  "typed random trees (prefix and infix sources) whose string literals, string-list elements and string constants are replaced by layout-sensitive ones (spaces, parentheses, brackets, semicolons, commas, backslashes, \\n \\r \\t, NBSP and other Unicode spaces, non-ASCII runes, U+FFFD, directive look-alikes, empty), variables renamed to identifiers with dots/underscores/non-ASCII letters, int literals at the extremes; x optimization subsets (3 per case quick, 16 thorough) x event mode. Oracle (round trip): Dump(e) compiles in prefix notation under the same names with optimizations off; dumping that program reproduces the text exactly; e and the recompiled program return the same outcome on 4 bindings; Dump is identical with ReportEvent/Debug. Programs folded to a bare scalar are set aside and counted. Non-trivial = a literal with a character outside [A-Za-z0-9_.-], or an if; distinct by source + subsets",
 	Gen:   genC13,
 	Check: checkC13,
+	Sweep: sweepC13,
 }
 
 func TestC13(t *testing.T)       { Run(t, propC13) }
